@@ -35,6 +35,8 @@ ASSUMPTIONS = [
     "the hang watchdog is 30 s per input (normal parses take < 10 ms)",
 ]
 
+BF2_NAMES = ["SELECT", "CHECK_FWVER", "SELECT_IF", "CRC", "REBOOT", "Firmware", "Creator", "Bf3Update", "UNKNOWN"]
+BF2_FORMS = ["instr0", "instr-x", "instr-all", "instr-good", "header", "header-empty", "header-hex"]
 ALLOWED = (FormatError, ValueError)
 CHUNK = 24
 REPL = "0FG:#>=, \n"
@@ -179,6 +181,11 @@ def cases(ctx):
     for t in range(0x00, 0x100):
         for where in ("first", "after-section", "after-reboot", "second-group"):
             yield ("bf2types", t, where)
+    # every instruction / header name arriving as either line kind ('#>' with and without parameters, '##' with a value)
+    for t in (0x84, 0x35, 0x70):
+        for name in BF2_NAMES:
+            for form in BF2_FORMS:
+                yield ("bf2kinds", t, name, form)
     for c in c05.cases(ctx):
         yield ("edit",) + tuple(c[1:])
 
@@ -365,6 +372,15 @@ def run_case(ctx, case):
             6: head + [("raw", "#>"), ("group", lines)],
             7: head + [("raw", ":0000" + "%02X" % t + "03050000"), ("raw", ":0000FF00"), ("raw", "##x")],
         }[variant]
+        return guarded(o, "bf2", call_entry, ctx, "bf2", None, "", B.render(evs))
+    if fam == "bf2kinds":
+        _, t, name, form = case
+        ev = {"instr0": ("instr", name, {}), "instr-x": ("instr", name, {"X": "1"}),
+              "instr-all": ("instr", name, {"FILTER": "zz", "VERSIONDESC": "01", "PROTOCOL": "q"}),
+              "instr-good": ("instr", name, {"FILTER": "01 01 00 9B", "VERSIONDESC": "01 02 03 0A 0B 0C", "PROTOCOL": "BRP"}),
+              "header": ("header", name, "abc"), "header-empty": ("header", name, ""), "header-hex": ("header", name, "0x12AB34CD")}[form]
+        img = shapes.payload(ctx, "c14-kd", 12, 0)
+        evs = [("header", "Bf3Update", "yes"), ev, ("group", B.image_lines(t, img, 6, extra=b"\x01")), ("instr", "REBOOT", {})]
         return guarded(o, "bf2", call_entry, ctx, "bf2", None, "", B.render(evs))
     if fam == "bf2types":
         _, t, where = case
